@@ -3,9 +3,9 @@ package appdrv
 import (
 	"crypto/sha256"
 	"encoding/json"
-	"math/big"
 	"fmt"
 	"math"
+	"math/big"
 	"sort"
 
 	"github.com/ethereum/go-ethereum/common"
